@@ -47,7 +47,7 @@ func RunPrefix(prefix []int, sigs []uint64, trace bool, body func()) (*vsched.Re
 // DFSConfig describes a stateless schedule search with iterative preemption bounding.
 type DFSConfig struct {
 	Name  string
-	Bound int // maximum number of preemptions
+	Bound int // maximum number of non-default scheduling decisions (deviations)
 	// Body is the scenario; it is run from scratch for every execution.  It must build
 	// all of its state itself.  Check is called after each execution with the result.
 	Body  func()
@@ -127,8 +127,11 @@ func children(r *vsched.Result, t dfsTask, bound int) []dfsTask {
 	for i := len(t.prefix); i < len(r.Choices); i++ {
 		ch := r.Choices[i]
 		// cost of choices taken before i is already in `cost` (default picks are 0 => free)
+		// deviation bounding: every non-default scheduling decision costs 1 (whether it
+		// preempts a runnable thread or picks another thread than the lowest-numbered one
+		// after a block); select-case and rand alternatives are free (all enumerated).
 		alt := cost
-		if ch.Kind == 's' && ch.Preempt {
+		if ch.Kind == 's' {
 			alt++
 		}
 		if alt <= bound {
